@@ -28,7 +28,8 @@ func applyEdits(src []byte, edits []edit) []byte {
 //
 //	simrt.Y(site); for !x.TryLock() { simrt.Y(site + ".spin") }
 //
-// on the same source line (line numbers are preserved). Only plain expression statements are
+// on the same source line (line numbers are preserved), and every statement `x.Unlock()` /
+// `x.RUnlock()` is followed by `simrt.Y(site + ".u")`. Only plain expression statements are
 // rewritten; deferred or nested calls are left alone.
 func rewriteL2(in, out, label string) error {
 	src, err := os.ReadFile(in)
@@ -43,6 +44,17 @@ func rewriteL2(in, out, label string) error {
 	var edits []edit
 	n := 0
 	ast.Inspect(f, func(node ast.Node) bool {
+		if ds, ok := node.(*ast.DeferStmt); ok {
+			// `defer x.Unlock()`: a scheduling point right after the deferred unlock, i.e. between the return of a
+			// function that worked under the lock and the caller's next statement
+			if sel, ok := ds.Call.Fun.(*ast.SelectorExpr); ok && len(ds.Call.Args) == 0 && (sel.Sel.Name == "Unlock" || sel.Sel.Name == "RUnlock") {
+				recv := string(src[fset.Position(sel.X.Pos()).Offset:fset.Position(sel.X.End()).Offset])
+				site := fmt.Sprintf("%s:%d.du", label, fset.Position(ds.Pos()).Line)
+				text := fmt.Sprintf("defer func() { %s.%s(); simrt.Y(%q) }()", recv, sel.Sel.Name, site)
+				edits = append(edits, edit{fset.Position(ds.Pos()).Offset, fset.Position(ds.End()).Offset, text})
+			}
+			return true
+		}
 		es, ok := node.(*ast.ExprStmt)
 		if !ok {
 			return true
@@ -52,6 +64,14 @@ func rewriteL2(in, out, label string) error {
 			return true
 		}
 		sel, ok := call.Fun.(*ast.SelectorExpr)
+		if ok && (sel.Sel.Name == "Unlock" || sel.Sel.Name == "RUnlock") {
+			// a scheduling point right after a lock was released (check-then-act windows between an
+			// unlock and the statements that follow it); deferred unlocks are not statements and stay as they are
+			line := fset.Position(es.Pos()).Line
+			end := fset.Position(es.End()).Offset
+			edits = append(edits, edit{end, end, fmt.Sprintf("; simrt.Y(%q)", fmt.Sprintf("%s:%d.u", label, line))})
+			return true
+		}
 		if !ok || (sel.Sel.Name != "Lock" && sel.Sel.Name != "RLock") {
 			return true
 		}
